@@ -49,6 +49,7 @@ def replica(case):
     out = []
     for i, s in enumerate(case[7]):
         if not s[0]: continue
+        if any(v == [] for v in s[1]) or any(v == [] for v in s[4]): continue
         if s[2] and all(v == [] for v in s[2]): continue
         x = [float(undy(v)) for v in s[1]]
         if xv:
@@ -128,11 +129,15 @@ def gen_moving(rng, quick, ball=False, feature=None):
         if feature == 'horizontal3d': coeffs, angles = [], []
         elif ndim == 3 and not coeffs: coeffs = [1, 1, 1]
     samples = []
+    nfex = rng.choice([0, 0, 0, 1, 2])
+    pnax = rng.choice([0, 0, 0, .1, .25]) if (not ball or feature in (None, 'undefined')) else 0   # undefined coordinate / external drift
     for q in pts:
         sel = rng.random() >= pmask
         vs = [([] if rng.random() < pna else dy(1)) for _ in range(nvar)]
         code = dy(rng.randint(0, 2)) if hc and rng.random() < .9 else []
-        samples.append([sel, [dy(v) for v in q], vs, code])
+        cs = [([] if rng.random() < pnax / 2 else dy(v)) for v in q]
+        fx = [([] if rng.random() < pnax else dy(rng.randint(0, 3))) for _ in range(nfex)]
+        samples.append([sel, cs, vs, code, fx])
     tcode = dy(rng.randint(0, 2)) if rng.random() < .9 else []
     nsect = 1
     if ndim >= 1:
@@ -177,6 +182,7 @@ def sector_truth(case, rotmat):
     t = [undy(x) for x in case[8][0]]
     out = []
     for s in case[7]:
+        if any(v == [] for v in s[1]): out.append(None); continue
         x = [undy(v) for v in s[1]]
         inc = [(t[d] - x[d]) if d < ndim else Fraction(0) for d in range(nd)]
         if coeffs:
@@ -199,7 +205,7 @@ def ball_key(case, meta, impl_ranks, spec):
     if meta['aniso'] or meta['rot']: return 'ballsearch:anisotropy'
     if case[5][0]: return 'ballsearch:xvalid'
     if any((not s[0]) for s in case[7]): return 'ballsearch:masked-sample'
-    if any(s[2] and all(v == [] for v in s[2]) for s in case[7]) or case[6]: return 'ballsearch:filtered-candidates'
+    if any((s[2] and all(v == [] for v in s[2])) or any(v == [] for v in s[1]) or any(v == [] for v in s[4]) for s in case[7]) or case[6]: return 'ballsearch:filtered-candidates'
     if ndim == 3 and not case[3]: return 'ballsearch:horizontal-radius-3d'
     if nsect > 1 and ndim > 1: return 'ballsearch:sectors'
     return 'ballsearch:unexplained'
@@ -232,6 +238,7 @@ def run(ctx):
     feats = ['plain', 'plain', 'aniso', 'xvalid', 'mask', 'undefined', 'sectors', 'nmaxi>n', 'checkers', 'nmini>nmaxi', 'horizontal3d', None]
     for i in range(nball):
         c, m = gen_moving(rng, quick, ball=True, feature=feats[i % len(feats)]); cases.append(c); metas.append(m)
+    summary_obs = {}; summary_ex = {}
     cf = write_cases(ctx, 'mov', cases)
     rc_i, impl = run_impl(ctx, exe, cf)
     # second pass: the model receives the harvested rotation matrix / sectors / eligible list
@@ -239,7 +246,7 @@ def run(ctx):
     for i, c in enumerate(cases):
         ii = impl[i] if i < len(impl) else None
         hv = [[], [], []]
-        if ii and ii[0] != -997 and len(ii) == 5:
+        if ii and ii[0] != -997 and len(ii) == 6:
             nsect = c[1][3]
             hv = [ii[1] if c[3] else [], ii[2] if nsect not in (1, 2, 4, 8) else [], ii[3]]
         mcases.append(c[:9] + [hv])
@@ -257,14 +264,14 @@ def run(ctx):
         if meta['nsel'] >= 0:
             if nmini == meta['nsel']: ctx.dist('boundary_nsel=nmini')
             if nmaxi == meta['tot']: ctx.dist('boundary_total=nmaxi')
-        if ii is None or (ii and ii[0] == -997) or len(ii) != 5:
+        if ii is None or (ii and ii[0] == -997) or len(ii) != 6:
             ndis += 1; found_input = True
             ctx.violation('crash:' + site, 'impl produced no answer (crash / exception) on case %d' % i, {'case': sx_str(c)})
             continue
         tie = moving_ties(c, meta, mi)
         if tie:
             ctx.cov['tie_excluded'] += 1; ctx.count(None, False); continue
-        m_code, m_ranks, spec, marg, info = mi
+        m_code, m_ranks, spec, marg, info, sums = mi
         i_ranks = ii[0]
         ctx.count(sx_str(c), nontrivial=(len(spec) > 0 or info[0] > 0))
         ctx.sample({'case': sx_str(c)[:300], 'impl': i_ranks, 'model': m_ranks, 'spec': spec})
@@ -304,6 +311,33 @@ def run(ctx):
                 else: small, s_impl, s_spec = shrink_moving(ctx, exe, runner, c, meta, i_ranks, spec, keyf=lambda cc, im_, sp_: ball_key(cc, meta, im_, sp_) == key)
                 ctx.violation(key, 'ball-tree search: NeighMoving::select returns %s, the definition gives %s' % (s_impl, s_spec),
                               {'case': sx_str(small), 'impl': s_impl, 'spec': s_spec})
+        # NeighMoving::summary: model of the code vs impl (decisions exact, distances within the tie-break perturbation)
+        if i_ranks == m_ranks:
+            sm, sp = sums
+            n_s = len(c[7]); M = math.sqrt(float(unq(info[4])))
+            tol = (n_s + 2) * EPS9 * M + 1e-9 * (1 + M)
+            def rt(x): return None if x == [] else math.sqrt(float(unq(x)))
+            def dv(x): return None if x == [] else float(undy(x))
+            isum = ii[5]
+            bad = None
+            if len(isum) != 5: bad = 'shape'
+            elif dv(isum[0]) != sm[0]: bad = 'Number'
+            elif (dv(isum[1]) is None) != (rt(sm[1]) is None) or (rt(sm[1]) is not None and abs(dv(isum[1]) - rt(sm[1])) > tol): bad = 'MaxDist'
+            elif (dv(isum[2]) is None) != (rt(sm[2]) is None) or (rt(sm[2]) is not None and abs(dv(isum[2]) - rt(sm[2])) > tol): bad = 'MinDist'
+            elif dv(isum[3]) != sm[3]: bad = 'NbNESect'
+            elif dv(isum[4]) != sm[4]: bad = 'NbCESect'
+            if bad:
+                ndis += 1
+                ctx.violation('model-drift:summary', 'NeighMoving::summary: column %s differs from the model of the code (impl %s, model %s)' % (bad, [dv(x) for x in isum], [sm[0], rt(sm[1]), rt(sm[2]), sm[3], sm[4]]),
+                              {'case': sx_str(c), 'correspondence': 'coq/C06/Model.v moving_summary vs NeighMoving::summary'}, found_input=False)
+            # what the columns are documented to mean (computed on the samples actually kept): counted, not a verdict
+            if not meta['ball']:
+                for nm, a, b in (('MaxDist', sm[1], sp[1]), ('MinDist', sm[2], sp[2]), ('NbNESect', sm[3], sp[3]), ('NbCESect', sm[4], sp[4])):
+                    if a != b:
+                        summary_obs[nm] = summary_obs.get(nm, 0) + 1
+                        if nm not in summary_ex: summary_ex[nm] = {'case': sx_str(c)[:400], 'code_value': a, 'kept_samples_value': b}
+    if summary_obs:
+        ctx.notes.append('NeighMoving::summary vs the samples actually kept (observation, not part of the verdict): columns differing in %s cases; first examples %s' % (summary_obs, summary_ex))
     # ------------------------------------------------------------------ part B : ball-tree KNN
     kcases = [c for c in load_corpus(ctx) if c[0] == 1]
     ntree = 60 if quick else 900
@@ -372,17 +406,22 @@ def run(ctx):
                 key, text = problem
                 small = shrink_knn(ctx, exe, runner, one, key) if not (any(v[0] == key for v in ctx.violations) or any(kk == key for kk, _ in ctx.known)) else one
                 ctx.violation(key, 'Ball::queryOneAsVD (metric %d, leaf_size %d, k=%d, n=%d): %s' % (metric, leaf, k, n, text), {'case': sx_str(small)})
-            if metric == 2 and m_part != []:
+            if m_part != [] and m_part != [-1]:
+                # exact replay of tree walk + heap + sort (Manhattan: distances exact; Euclidean: the model carries squared
+                # distances and decides the square-root comparisons on squares)
                 m_d, m_i = m_part if len(m_part) == 2 else ([], [])
-                if [unq(x) for x in m_d] != [undy(x) for x in i_d] or m_i != i_idx:
-                    # exact replay of heap + sort: equal distances may legitimately be permuted only by the pruning
-                    # decisions taken on the (rounded) centroid; everything else is drift
+                md = [unq(x) for x in m_d]; idv = [undy(x) for x in i_d]
+                if metric == 2: same_d = md == idv
+                else: same_d = len(md) == len(idv) and all(a is not None and b is not None and close_enough(float(b), math.sqrt(float(a)), 1e-12) for a, b in zip(md, idv))
+                if not same_d or m_i != i_idx:
+                    # equal distances may legitimately be permuted only by the pruning / child-order decisions taken on
+                    # rounded centroids and roots; everything else is drift
                     if tie or len(set(str(x) for x in s_d)) < len(s_d):
-                        if sorted(zip([str(unq(x)) for x in m_d], m_i)) == sorted(zip([str(undy(x)) for x in i_d], i_idx)) or tie:
+                        if sorted(m_i) == sorted(i_idx) or tie:
                             ctx.cov['tie_excluded'] += 1; continue
                     ndis += 1
-                    ctx.violation('model-drift:knn', 'model of the ball-tree query and impl disagree (impl %s %s, model %s %s)' % ([str(undy(x)) for x in i_d], i_idx, [str(unq(x)) for x in m_d], m_i),
-                                  {'case': sx_str(one), 'correspondence': 'coq/C06/Knn.v vs ball_algorithm.cpp / neighbors_heap.cpp'}, found_input=problem is not None)
+                    ctx.violation('model-drift:knn' + ('' if metric == 2 else '-euclid'), 'model of the ball-tree query and impl disagree (impl %s %s, model %s %s)' % ([str(x) for x in idv], i_idx, [str(x) for x in md], m_i),
+                                  {'case': sx_str(one), 'correspondence': 'coq/C06/Knn.v, KnnE.v vs ball_algorithm.cpp / neighbors_heap.cpp'}, found_input=problem is not None)
     ctx.cov['disagreements'] = ndis
     ctx.cov['rule'] = ('cases = (data set, neighbourhood parameters, target) for NeighMoving::select (standard and ball-tree path); '
                        'integer / dyadic coordinates in 1-3 D (lattice, grid, cluster, collinear); parameters aimed at nsel=nmini, total=nmaxi, full sectors; '
@@ -391,10 +430,11 @@ def run(ctx):
     ctx.assumptions = ['coordinates are small dyadic rationals; squared distances are compared exactly, sqrt is monotone',
                        'rotation matrices are harvested from the implementation and given to the model as exact dyadics',
                        'for nsect outside {1,2,4,8} the sector index is harvested from _movingSectorDefine (oracle); it is cross-checked against the angular definition away from sector boundaries',
+                       'samples may carry undefined coordinates and undefined external drifts (ANeigh::_discardUndefined as of fix C05_4); the target is always defined',
                        'nsect >= 1; anisotropy coefficients non-zero; in 1-D a coefficient vector is always given (without it BiTargetCheckDistance assumes 2-D and reads a second coordinate)',
                        'extra pair checkers exercised: BiTargetCheckBench (always on the last dimension: isValid() overrides the constructor argument) and BiTargetCheckCode',
                        'ties: a case is excluded when two candidate distances differ by less than the perturbation distmax*n*1e-9 allows, when a sample sits on the radius or on a sector boundary after an inexact transform, or (ball path / KNN) when equidistant samples straddle the cut',
-                       'KNN: Manhattan instance replayed exactly by the model (integer/dyadic coordinates make binary64 sums exact); Euclidean instance compared with exhaustive search on squared distances (reported distances within 1e-12 of the square root)',
+                       'KNN: Manhattan instance replayed exactly by the model (integer/dyadic coordinates make binary64 sums exact); Euclidean instance replayed by the model on squared distances (square-root comparisons decided exactly on squares, Proofs_sqrt.v), reported distances within 1e-12 of the square root; both also compared with exhaustive search',
                        'the ball tree is built through the (data**, n, nfeatures) constructor']
     ctx.cov['trusted_base'] += ['checks/C06.py: tie filters, high-precision angular sector check (math.atan2), exhaustive-search comparison of KNN results',
                                 'harness/C06.cpp harvests rotation matrix / general-nsect sector / eligible list of the ball path from the implementation itself']
@@ -423,7 +463,7 @@ def eval_moving(ctx, exe, runner, cands):
     for k, c in enumerate(cands):
         ii = im[k] if k < len(im) else None
         hv = [[], [], []]
-        if ii and ii[0] != -997 and len(ii) == 5:
+        if ii and ii[0] != -997 and len(ii) == 6:
             hv = [ii[1] if c[3] else [], ii[2] if c[1][3] not in (1, 2, 4, 8) else [], ii[3]]
         mc.append(c[:9] + [hv])
     mf = write_cases(ctx, 'shrm', mc)
@@ -436,7 +476,7 @@ def shrink_moving(ctx, exe, runner, c, meta, impl0, spec0, keyf=None):
     def pick(cands):
         im, mo = eval_moving(ctx, exe, runner, cands)
         for k in range(len(cands)):
-            if k < len(im) and k < len(mo) and im[k] and len(im[k]) == 5 and len(mo[k]) == 5:
+            if k < len(im) and k < len(mo) and im[k] and len(im[k]) == 6 and len(mo[k]) == 6:
                 if moving_ties(cands[k], meta, mo[k]) is None and im[k][0] != mo[k][2]:
                     dd = [unq(x) for x in mo[k][4][2]]
                     if meta['ball'] and all(0 <= j < len(dd) for j in im[k][0]) and sorted(dd[j] for j in im[k][0]) == sorted(dd[j] for j in mo[k][2]): continue
